@@ -156,7 +156,10 @@ def run(chk):
     with V.build_lock():
         ok, fails = CS.build_conv(chk)
         if ok:
-            proved, f2 = V.prove(chk, "C02", [])
+            kn = os.path.join(V.GEN, "Known.v")
+            pk = V.run_py("x_known.py", [kn])
+            chk.obligation("translate:x_known", pk.returncode == 0, (pk.stdout + pk.stderr)[-200:])
+            proved, f2 = V.prove(chk, "C02", [kn], extra_props=("Cover",))
             fails += f2
         pkg = CS.load_pkg(mmv)
         cases = []
